@@ -13,7 +13,8 @@ func init() { register("C03", "other", checkC03) }
 
 func checkC03(w *World, r *Result) {
 	r.Explanation = "Decides structural necessary conditions on generator/typescript/types.go: CONS the struct loop is a json consumer (Exported() guard first, keys from JSONName()); FLW-C09a/AGR-C09b/AGR-C09c the key set itself (tag name part, ignore rules, flattening of embedded structs) follows encoding/json (rules shared with C09); REC-SHAPE/AGR-MD the type printer never follows a child the declaration generator does not descend into and each helper declares what it mentions (every mentioned name is declared); EXH-b typeName and generate accept the same node kinds; AGR-C03a every test of Array.Len anywhere in the module is equivalent to Len>=0 or its negation, so the alias a fixed array is printed as is the alias that is declared and all generators agree on what is a slice; AGR-C03b maps and slices are printed with `| null`; AGR-C03t a fixed array is declared as a tuple with Len elements; AGR-C03p each basic kind is printed as the JSON-compatible TypeScript primitive; AGR-C02b the Kind literals of a union are the members' local Go names; AGR-C03e the enum object lists every member; DECL-ID declaration IDs cover what the content reads; GEN-ID every name derived from a go/types Named also covers its type arguments, so two instantiations of one generic type are declared under two names; TPL-4 the constant templates are bracket-balanced. Does not decide: inhabitation for values, enum literal values, TypeScript syntax beyond balance (no TS parser in the sandbox)."
-	r.Rules = []string{"CONS", "FLW-C09a", "AGR-C09b", "AGR-C09c", "REC-SHAPE", "AGR-MD", "EXH-b", "AGR-C03a", "AGR-C03b", "AGR-C03t", "AGR-C03p", "AGR-C02b", "AGR-C03e", "DECL-ID", "GEN-ID", "NS-PKG", "CONST-EXACT", "UTF8-SLICE", "TPL-4", "ALIAS-APPEND", "PRINTF", "CACHE-DROP", "MUT-AN"}
+	r.Rules = []string{"CONS", "FLW-C09a", "AGR-C09b", "AGR-C09c", "REC-SHAPE", "AGR-MD", "EXH-b", "AGR-C03a", "AGR-C03b", "AGR-C03t", "AGR-C03p", "AGR-C02b", "AGR-C03e", "DECL-ID", "GEN-ID", "NS-PKG", "CONST-EXACT", "UTF8-SLICE", "TPL-4", "ALIAS-APPEND", "PRINTF", "CACHE-DROP", "MUT-AN", "BYTES-KIND"}
+	bytesKindRule(w, r, "generator/typescript", "generator/typescript.typeName")
 	mutAnRule(w, r, func(rel string) bool { return rel == "generator/typescript" })
 	cacheDropRule(w, r, func(rel string) bool { return rel == "generator/typescript" })
 	printfRule(w, r, "generator/typescript")
